@@ -1610,6 +1610,8 @@ func runInput(o *hx.Out, kind string, d *SetDesc, origin string) {
 		runRoll(o, d, origin)
 	case "delete":
 		runDelete(o, d, origin)
+	case "blocks":
+		runBlocks(o, d, origin)
 	}
 }
 
@@ -1619,6 +1621,15 @@ func main() {
 	defer o.Close()
 	if f.In != "" {
 		for _, in := range hx.ReadInputs(f.In) {
+			if in.Kind == "planlevel" {
+				var pd PlanLevelDesc
+				if err := json.Unmarshal(in.Desc, &pd); err != nil {
+					fmt.Fprintln(os.Stderr, "bad desc:", err)
+					continue
+				}
+				runPlanLevel(o, &pd, "")
+				continue
+			}
 			var d SetDesc
 			if err := json.Unmarshal(in.Desc, &d); err != nil {
 				fmt.Fprintln(os.Stderr, "bad desc:", err)
@@ -1629,9 +1640,13 @@ func main() {
 		return
 	}
 	r := hx.NewRand(f.Seed)
-	for _, dc := range designed(f.Tier) {
+	for _, dc := range append(designed(f.Tier), designedBlocks()...) {
 		d := dc.d
 		runInput(o, dc.kind, &d, "designed")
+	}
+	for _, pd := range designedPlanLevel() {
+		pd := pd
+		runPlanLevel(o, &pd, "designed")
 	}
 	generate(o, r, f.N, f.Tier)
 }
